@@ -30,6 +30,13 @@ extern ssize_t g_dx, g_dy, g_sx, g_sy, g_mx, g_my, g_ex, g_ey;
 extern uint64_t g_dr, g_dg, g_db, g_da, g_sr, g_sg, g_sb, g_sa, g_mr, g_mg, g_mb, g_ma, g_er, g_eg, g_eb, g_ea;
 /* the custom_blit callback is an arbitrary function; it is sampled at one symbolic argument tuple */
 extern uint32_t g_cb_d, g_cb_s, g_cb_out;
+/* clamp_blit_dimensions: width/height before its final "empty if negative" step (witness assigned by a ghost statement inside the function) */
+extern ssize_t g_cw, g_ch;
+/* blend arithmetic, sampled at one symbolic argument tuple per channel ("function point"): alpha g_t_al, colour/source channel g_t_c*,
+ * destination channel g_t_d*, divisor g_t_mx, effective-alpha inputs g_t_e1,g_t_e2; g_bo_* / g_bo_e name the results.  The formulas
+ * are only ever evaluated on these never-assigned ghosts, so every instance in a verification condition is the same term. */
+extern bool g_tup_ok;
+extern uint64_t g_t_al, g_t_cr, g_t_cg, g_t_cb, g_t_ca, g_t_dr, g_t_dg, g_t_db, g_t_da, g_t_mx, g_t_e1, g_t_e2, g_bo_r, g_bo_g, g_bo_b, g_bo_a, g_bo_e;
 extern uint64_t g_ci_dr, g_ci_dg, g_ci_db, g_ci_da, g_ci_sr, g_ci_sg, g_ci_sb, g_ci_sa, g_co_r, g_co_g, g_co_b, g_co_a;
 
 /* ---- type invariant of Image, coordinate range ---- */
@@ -166,18 +173,18 @@ __CPROVER_assigns(verif_exc, g_dr, g_dg, g_db, g_da);
 void clamp_blit_dimensions(const Image* dest, const Image* source, ssize_t* x, ssize_t* y, ssize_t* w, ssize_t* h, ssize_t* sx, ssize_t* sy)
 CLAMP_PTRS
 CLAMP_VAL
-/* (1) the result is a rectangle */
-__CPROVER_ensures(*w >= 0 && *h >= 0)
-/* (2) a non-empty result lies inside both canvases: every pixel accessor call of the blit loops is in range */
-__CPROVER_ensures((*w > 0 && *h > 0) ==> (*x >= 0 && *x + *w <= dest->width && *sx >= 0 && *sx + *w <= source->width))
-__CPROVER_ensures((*w > 0 && *h > 0) ==> (*y >= 0 && *y + *h <= dest->height && *sy >= 0 && *sy + *h <= source->height))
-/* (3) the destination-to-source offset is preserved */
-__CPROVER_ensures(*x - *sx == __CPROVER_old(*x) - __CPROVER_old(*sx) && *y - *sy == __CPROVER_old(*y) - __CPROVER_old(*sy))
-/* (4) sound and maximal: the symbolic destination pixel (g_dx,g_dy) is in the result iff the model copies it */
-__CPROVER_ensures(INRECT(g_dx, g_dy, *x, *y, *w, *h) ==
-                  (AXIS_MODEL(g_dx, __CPROVER_old(*x), __CPROVER_old(*w), __CPROVER_old(*sx), dest->width, source->width) &&
-                   AXIS_MODEL(g_dy, __CPROVER_old(*y), __CPROVER_old(*h), __CPROVER_old(*sy), dest->height, source->height)))
-__CPROVER_assigns(*x, *y, *w, *h, *sx, *sy);
+/* (1) origins are never negative; the destination-to-source offset is preserved */
+__CPROVER_ensures(*x >= 0 && *sx >= 0 && *x - *sx == __CPROVER_old(*x) - __CPROVER_old(*sx))
+__CPROVER_ensures(*y >= 0 && *sy >= 0 && *y - *sy == __CPROVER_old(*y) - __CPROVER_old(*sy))
+/* (2) per axis, a non-empty span lies inside both canvases: every pixel accessor call of the blit loops is in range */
+__CPROVER_ensures(g_cw > 0 ==> (*x + g_cw <= dest->width && *sx + g_cw <= source->width))
+__CPROVER_ensures(g_ch > 0 ==> (*y + g_ch <= dest->height && *sy + g_ch <= source->height))
+/* (3) per axis, sound and maximal: the symbolic destination column/row is in the span iff the intersection model copies it */
+__CPROVER_ensures(AXIS_IN(g_dx, *x, g_cw) == AXIS_MODEL(g_dx, __CPROVER_old(*x), __CPROVER_old(*w), __CPROVER_old(*sx), dest->width, source->width))
+__CPROVER_ensures(AXIS_IN(g_dy, *y, g_ch) == AXIS_MODEL(g_dy, __CPROVER_old(*y), __CPROVER_old(*h), __CPROVER_old(*sy), dest->height, source->height))
+/* (4) the result is the rectangle of the two spans, or empty if either span is negative */
+__CPROVER_ensures((g_cw < 0 || g_ch < 0) ? (*w == 0 && *h == 0) : (*w == g_cw && *h == g_ch))
+__CPROVER_assigns(*x, *y, *w, *h, *sx, *sy, g_cw, g_ch);
 
 /* ================= colour rules (new value of D as a function of S, the old D and the arguments) ================= */
 /* the 8-bit alpha blend of fill_rect and blit, as computed by the pinned commit */
@@ -185,20 +192,37 @@ __CPROVER_assigns(*x, *y, *w, *h, *sx, *sy);
 /* the max_value-relative blend of blend_blit */
 #define BLM(c, al, d, mx) (((c) * (al) + (d) * ((mx) - (al))) / (mx))
 
-#define FILL_R_(dr, dg, db, da) ((a) == 0xFF ? WCH(r, self) : WCH(BL8(a, r, dr), self))
-#define FILL_G_(dr, dg, db, da) ((a) == 0xFF ? WCH(g, self) : WCH(BL8(a, g, dg), self))
-#define FILL_B_(dr, dg, db, da) ((a) == 0xFF ? WCH(b, self) : WCH(BL8(a, b, db), self))
-#define FILL_A_(dr, dg, db, da) ((a) == 0xFF ? WA(a, self) : WA(BL8(a, a, da), self))
+/* function-point definitions: g_bo_k IS the blend of the tuple (all four channels) */
+#define TUP_DEF8 (g_bo_r == BL8(g_t_al, g_t_cr, g_t_dr) && g_bo_g == BL8(g_t_al, g_t_cg, g_t_dg) && \
+                  g_bo_b == BL8(g_t_al, g_t_cb, g_t_db) && g_bo_a == BL8(g_t_al, g_t_ca, g_t_da))
+#define TUP_DEFM (g_bo_r == BLM(g_t_cr, g_t_al, g_t_dr, g_t_mx) && g_bo_g == BLM(g_t_cg, g_t_al, g_t_dg, g_t_mx) && \
+                  g_bo_b == BLM(g_t_cb, g_t_al, g_t_db, g_t_mx) && g_bo_a == BLM(g_t_ca, g_t_al, g_t_da, g_t_mx))
+#define TUP_DEFE (g_bo_e == (g_t_e1 * g_t_e2) / g_t_mx)
+#define TUP_IS(al, cr, cg, cb, ca, dr, dg, db, da) \
+  (g_t_al == (al) && g_t_cr == (cr) && g_t_cg == (cg) && g_t_cb == (cb) && g_t_ca == (ca) && \
+   g_t_dr == (dr) && g_t_dg == (dg) && g_t_db == (db) && g_t_da == (da))
+
+/* fill_rect: a == 0xFF stores the colour; otherwise the 8-bit blend of colour and old pixel, i.e. (with the tuple (a; r,g,b,a; old D))
+ * WCH(BL8(a, r, old_dr)) ... -- claimed for the valuations with g_tup_ok */
+#define FILL_COND ((a) == 0xFF || g_tup_ok)
+#define FILL_TUP(dr, dg, db, da) TUP_IS(a, r, g, b, a, dr, dg, db, da)
+#define FILL_R_(dr, dg, db, da) ((a) == 0xFF ? WCH(r, self) : WCH(g_bo_r, self))
+#define FILL_G_(dr, dg, db, da) ((a) == 0xFF ? WCH(g, self) : WCH(g_bo_g, self))
+#define FILL_B_(dr, dg, db, da) ((a) == 0xFF ? WCH(b, self) : WCH(g_bo_b, self))
+#define FILL_A_(dr, dg, db, da) ((a) == 0xFF ? WA(a, self) : WA(g_bo_a, self))
 
 #define CLEAR_R_(dr, dg, db, da) WCH(r, self)
 #define CLEAR_G_(dr, dg, db, da) WCH(g, self)
 #define CLEAR_B_(dr, dg, db, da) WCH(b, self)
 #define CLEAR_A_(dr, dg, db, da) WA(a, self)
 
-#define BLIT_R_(dr, dg, db, da) (g_sa == 0 ? (dr) : g_sa == 0xFF ? WCH(g_sr, self) : WCH(BL8(g_sa, g_sr, dr), self))
-#define BLIT_G_(dr, dg, db, da) (g_sa == 0 ? (dg) : g_sa == 0xFF ? WCH(g_sg, self) : WCH(BL8(g_sa, g_sg, dg), self))
-#define BLIT_B_(dr, dg, db, da) (g_sa == 0 ? (db) : g_sa == 0xFF ? WCH(g_sb, self) : WCH(BL8(g_sa, g_sb, db), self))
-#define BLIT_A_(dr, dg, db, da) (g_sa == 0 ? (da) : g_sa == 0xFF ? WA(g_sa, self) : WA(BL8(g_sa, g_sa, da), self))
+/* blit: source alpha 0 keeps the pixel, 0xFF copies the source pixel, otherwise the 8-bit blend with the tuple (sa; S; old D) */
+#define BLIT_COND (g_sa == 0 || g_sa == 0xFF || g_tup_ok)
+#define BLIT_TUP(dr, dg, db, da) TUP_IS(g_sa, g_sr, g_sg, g_sb, g_sa, dr, dg, db, da)
+#define BLIT_R_(dr, dg, db, da) (g_sa == 0 ? (dr) : g_sa == 0xFF ? WCH(g_sr, self) : WCH(g_bo_r, self))
+#define BLIT_G_(dr, dg, db, da) (g_sa == 0 ? (dg) : g_sa == 0xFF ? WCH(g_sg, self) : WCH(g_bo_g, self))
+#define BLIT_B_(dr, dg, db, da) (g_sa == 0 ? (db) : g_sa == 0xFF ? WCH(g_sb, self) : WCH(g_bo_b, self))
+#define BLIT_A_(dr, dg, db, da) (g_sa == 0 ? (da) : g_sa == 0xFF ? WA(g_sa, self) : WA(g_bo_a, self))
 
 #define S_OPAQUE (g_sr != r || g_sg != g || g_sb != b)          /* the source pixel is not the transparent colour */
 #define MASKRGB_R_(dr, dg, db, da) (S_OPAQUE ? WCH(g_sr, self) : (dr))
@@ -219,16 +243,21 @@ __CPROVER_assigns(*x, *y, *w, *h, *sx, *sy);
 #define MASKIMG_A_(dr, dg, db, da) (M_WHITE ? (da) : WA(g_sa, self))
 
 #define MX (self->max_value)
-#define BLEND_R_(dr, dg, db, da) (g_sa == MX ? WCH(g_sr, self) : g_sa != 0 ? WCH(BLM(g_sr, g_sa, dr, MX), self) : (dr))
-#define BLEND_G_(dr, dg, db, da) (g_sa == MX ? WCH(g_sg, self) : g_sa != 0 ? WCH(BLM(g_sg, g_sa, dg, MX), self) : (dg))
-#define BLEND_B_(dr, dg, db, da) (g_sa == MX ? WCH(g_sb, self) : g_sa != 0 ? WCH(BLM(g_sb, g_sa, db, MX), self) : (db))
-#define BLEND_A_(dr, dg, db, da) (g_sa == MX ? WA(g_sa, self) : g_sa != 0 ? WA(BLM(g_sa, g_sa, da, MX), self) : (da))
+/* blend_blit: source alpha == max copies, 0 keeps, otherwise the max_value-relative blend with the tuple (sa; S; old D; max) */
+#define BLEND_COND (g_sa == MX || g_sa == 0 || g_tup_ok)
+#define BLEND_TUP(dr, dg, db, da) (TUP_IS(g_sa, g_sr, g_sg, g_sb, g_sa, dr, dg, db, da) && g_t_mx == MX)
+#define BLEND_R_(dr, dg, db, da) (g_sa == MX ? WCH(g_sr, self) : g_sa != 0 ? WCH(g_bo_r, self) : (dr))
+#define BLEND_G_(dr, dg, db, da) (g_sa == MX ? WCH(g_sg, self) : g_sa != 0 ? WCH(g_bo_g, self) : (dg))
+#define BLEND_B_(dr, dg, db, da) (g_sa == MX ? WCH(g_sb, self) : g_sa != 0 ? WCH(g_bo_b, self) : (db))
+#define BLEND_A_(dr, dg, db, da) (g_sa == MX ? WA(g_sa, self) : g_sa != 0 ? WA(g_bo_a, self) : (da))
 
-#define EFFA ((source_alpha * g_sa) / MX)
-#define BLENDA_R_(dr, dg, db, da) (EFFA == MX ? WCH(g_sr, self) : EFFA != 0 ? WCH(BLM(g_sr, EFFA, dr, MX), self) : (dr))
-#define BLENDA_G_(dr, dg, db, da) (EFFA == MX ? WCH(g_sg, self) : EFFA != 0 ? WCH(BLM(g_sg, EFFA, dg, MX), self) : (dg))
-#define BLENDA_B_(dr, dg, db, da) (EFFA == MX ? WCH(g_sb, self) : EFFA != 0 ? WCH(BLM(g_sb, EFFA, db, MX), self) : (db))
-#define BLENDA_A_(dr, dg, db, da) (EFFA == MX ? WA(EFFA, self) : EFFA != 0 ? WA(da, self) : (da))
+/* blend_blit with source_alpha: effective alpha g_bo_e = (source_alpha * sa) / max; == max copies the colour channels and stores g_bo_e
+ * as alpha, 0 keeps, otherwise colour channels are blended with g_bo_e (tuple (g_bo_e; S; old D; max)) and alpha is kept */
+#define BLENDA_TUP(dr, dg, db, da) (TUP_IS(g_bo_e, g_sr, g_sg, g_sb, g_sa, dr, dg, db, da) && g_t_mx == MX && g_t_e1 == source_alpha && g_t_e2 == g_sa)
+#define BLENDA_R_(dr, dg, db, da) (g_bo_e == MX ? WCH(g_sr, self) : g_bo_e != 0 ? WCH(g_bo_r, self) : (dr))
+#define BLENDA_G_(dr, dg, db, da) (g_bo_e == MX ? WCH(g_sg, self) : g_bo_e != 0 ? WCH(g_bo_g, self) : (dg))
+#define BLENDA_B_(dr, dg, db, da) (g_bo_e == MX ? WCH(g_sb, self) : g_bo_e != 0 ? WCH(g_bo_b, self) : (db))
+#define BLENDA_A_(dr, dg, db, da) (g_bo_e == MX ? WA(g_bo_e, self) : g_bo_e != 0 ? WA(da, self) : (da))
 
 #define CB32_R_(dr, dg, db, da) WCH(C_R(g_cb_out), self)
 #define CB32_G_(dr, dg, db, da) WCH(C_G(g_cb_out), self)
@@ -288,11 +317,51 @@ __CPROVER_assigns(*x, *y, *w, *h, *sx, *sy);
 
 /* ================= fill_rect / clear ================= */
 /* per-pixel model: pixel (px,py) of the canvas is filled iff x <= px < x+w and y <= py < y+h */
+/* the outlined blend expressions of fill_rect / blit (8-bit form) and blend_blit (max_value form), function-point contracts;
+ * proved on the extracted expression text for all arguments (groups Image.<fn>.arith[k]) */
+#define P8 uint64_t p1, uint64_t p2, uint64_t p3, uint64_t p4, uint64_t p5, uint64_t p6, uint64_t p7, uint64_t p8
+#define BLH8(name, AL, C, D, gc, gd, gbo) uint64_t name(P8) \
+  __CPROVER_ensures((g_tup_ok && (AL) == g_t_al && (C) == gc && (D) == gd && gbo == BL8(g_t_al, gc, gd)) ==> __CPROVER_return_value == gbo) \
+  __CPROVER_assigns();
+/* fill_rect helpers: (a, r, g, b, _r, _g, _b, _a) */
+BLH8(x_fill_bl1, p1, p2, p5, g_t_cr, g_t_dr, g_bo_r)
+BLH8(x_fill_bl2, p1, p3, p6, g_t_cg, g_t_dg, g_bo_g)
+BLH8(x_fill_bl3, p1, p4, p7, g_t_cb, g_t_db, g_bo_b)
+BLH8(x_fill_bl4, p1, p1, p8, g_t_ca, g_t_da, g_bo_a)
+/* blit helpers: (r, g, b, a, sr, sg, sb, sa) = (source pixel, destination pixel) */
+BLH8(x_blit_bl1, p4, p1, p5, g_t_cr, g_t_dr, g_bo_r)
+BLH8(x_blit_bl2, p4, p2, p6, g_t_cg, g_t_dg, g_bo_g)
+BLH8(x_blit_bl3, p4, p3, p7, g_t_cb, g_t_db, g_bo_b)
+BLH8(x_blit_bl4, p4, p4, p8, g_t_ca, g_t_da, g_bo_a)
+/* blend_blit helpers: (self, sr, sg, sb, sa, dr, dg, db, da) */
+#define BLHM(name, C, D, gc, gd, gbo) uint64_t name(const Image* self, P8) \
+  __CPROVER_requires(self->max_value != 0) \
+  __CPROVER_ensures((g_tup_ok && p4 == g_t_al && (C) == gc && (D) == gd && self->max_value == g_t_mx && gbo == BLM(gc, g_t_al, gd, g_t_mx)) ==> __CPROVER_return_value == gbo) \
+  __CPROVER_assigns();
+BLHM(x_blend_bl1, p1, p5, g_t_cr, g_t_dr, g_bo_r)
+BLHM(x_blend_bl2, p2, p6, g_t_cg, g_t_dg, g_bo_g)
+BLHM(x_blend_bl3, p3, p7, g_t_cb, g_t_db, g_bo_b)
+BLHM(x_blend_bl4, p4, p8, g_t_ca, g_t_da, g_bo_a)
+/* blend_blit(.., source_alpha) helpers: effective alpha (self, source_alpha, sr, sg, sb, sa); channels (self, source_alpha, effective_alpha, S, D) */
+uint64_t x_blenda_bl1(const Image* self, uint64_t source_alpha, uint64_t sr, uint64_t sg, uint64_t sb, uint64_t sa)
+__CPROVER_requires(self->max_value != 0)
+__CPROVER_ensures((g_tup_ok && source_alpha == g_t_e1 && sa == g_t_e2 && self->max_value == g_t_mx && TUP_DEFE) ==> __CPROVER_return_value == g_bo_e)
+__CPROVER_assigns();
+#define BLHA(name, C, D, gc, gd, gbo) uint64_t name(const Image* self, uint64_t source_alpha, uint64_t effective_alpha, P8) \
+  __CPROVER_requires(self->max_value != 0) \
+  __CPROVER_ensures((g_tup_ok && effective_alpha == g_t_al && (C) == gc && (D) == gd && self->max_value == g_t_mx && gbo == BLM(gc, g_t_al, gd, g_t_mx)) ==> __CPROVER_return_value == gbo) \
+  __CPROVER_assigns();
+BLHA(x_blenda_bl2, p1, p5, g_t_cr, g_t_dr, g_bo_r)
+BLHA(x_blenda_bl3, p2, p6, g_t_cg, g_t_dg, g_bo_g)
+BLHA(x_blenda_bl4, p3, p7, g_t_cb, g_t_db, g_bo_b)
+
 void Image_fill_rect(Image* self, ssize_t x, ssize_t y, ssize_t w, ssize_t h, uint64_t r, uint64_t g, uint64_t b, uint64_t a)
 DST_REQ(self)
 __CPROVER_requires(COORD_OK(x) && COORD_OK(y) && COORD_OK(w) && COORD_OK(h))
+__CPROVER_requires(g_tup_ok ==> FILL_TUP(g_dr, g_dg, g_db, g_da))
+__CPROVER_requires(g_tup_ok ==> TUP_DEF8)
 __CPROVER_ensures(verif_exc == 0)
-__CPROVER_ensures(INRECT(g_dx, g_dy, x, y, w, h) ? D4_RULE(FILL) : D4_OLD)
+__CPROVER_ensures(INRECT(g_dx, g_dy, x, y, w, h) ? (FILL_COND ==> D4_RULE(FILL)) : D4_OLD)
 __CPROVER_assigns(D_ASSIGNS);
 
 #define r C_R(c)
@@ -302,8 +371,10 @@ __CPROVER_assigns(D_ASSIGNS);
 void Image_fill_rect_c(Image* self, ssize_t x, ssize_t y, ssize_t w, ssize_t h, uint32_t c)
 DST_REQ(self)
 __CPROVER_requires(COORD_OK(x) && COORD_OK(y) && COORD_OK(w) && COORD_OK(h))
+__CPROVER_requires(g_tup_ok ==> FILL_TUP(g_dr, g_dg, g_db, g_da))
+__CPROVER_requires(g_tup_ok ==> TUP_DEF8)
 __CPROVER_ensures(verif_exc == 0)
-__CPROVER_ensures(INRECT(g_dx, g_dy, x, y, w, h) ? D4_RULE(FILL) : D4_OLD)
+__CPROVER_ensures(INRECT(g_dx, g_dy, x, y, w, h) ? (FILL_COND ==> D4_RULE(FILL)) : D4_OLD)
 __CPROVER_assigns(D_ASSIGNS);
 void Image_clear_c(Image* self, uint32_t c)
 DST_REQ(self)
@@ -331,10 +402,17 @@ __CPROVER_assigns(D_ASSIGNS);
   __CPROVER_ensures(verif_exc == 0) \
   __CPROVER_ensures(BLIT_HITS ? D4_RULE(n) : D4_OLD) \
   __CPROVER_assigns(D_ASSIGNS)
+/* variants with blend arithmetic: the blended case is claimed for the valuations where the tuple ghosts name the blend (g_tup_ok) */
+#define BLIT_ENS_ARITH(n, def) \
+  __CPROVER_requires(g_tup_ok ==> n##_TUP(g_dr, g_dg, g_db, g_da)) \
+  __CPROVER_requires(g_tup_ok ==> def) \
+  __CPROVER_ensures(verif_exc == 0) \
+  __CPROVER_ensures(BLIT_HITS ? (n##_COND ==> D4_RULE(n)) : D4_OLD) \
+  __CPROVER_assigns(D_ASSIGNS)
 #define BLIT_PARAMS Image* self, const Image* source, ssize_t x, ssize_t y, ssize_t w, ssize_t h, ssize_t sx, ssize_t sy
 
 void Image_blit(BLIT_PARAMS)
-BLIT_REQ(self, source) BLIT_ENS(BLIT);
+BLIT_REQ(self, source) BLIT_ENS_ARITH(BLIT, TUP_DEF8);
 
 void Image_mask_blit_rgb(BLIT_PARAMS, uint64_t r, uint64_t g, uint64_t b)
 BLIT_REQ(self, source) BLIT_ENS(MASKRGB);
@@ -367,10 +445,11 @@ __CPROVER_ensures(verif_exc != 0 ==> D4_OLD)
 __CPROVER_assigns(D_ASSIGNS);
 
 void Image_blend_blit(BLIT_PARAMS)
-BLIT_REQ(self, source) BLIT_ENS(BLEND);
+BLIT_REQ(self, source) BLIT_ENS_ARITH(BLEND, TUP_DEFM);
 
+#define BLENDA_COND g_tup_ok
 void Image_blend_blit_alpha(BLIT_PARAMS, uint64_t source_alpha)
-BLIT_REQ(self, source) BLIT_ENS(BLENDA);
+BLIT_REQ(self, source) BLIT_ENS_ARITH(BLENDA, (TUP_DEFM && TUP_DEFE));
 
 /* custom_blit: the callback is an arbitrary (stateless) function; the stub below samples it at one symbolic argument tuple */
 void verif_cb32(uint32_t* dc, uint32_t sc)
